@@ -194,3 +194,36 @@ def handwritten_docstring_obligation(rep, prop="C05"):
         ob.status, ob.detail = UNDECIDED, f"scanner failed: {type(e).__name__}: {e}"
     ob.time_s = time.time() - t0
     return rep.add(ob)
+
+
+# ---- union decoders: a member that does not fit must fall through to the next member, whatever it raised -------------------
+def union_fallthrough_obligation(rep, prop="C14"):
+    """In the union decoder every member but the last is tried inside `try: ... except ...: pass`.  The check a member's
+    decoder performs may raise anything (TypeError / ValueError / KeyError by design; AttributeError, NameError ... from the
+    member's own code), so the handler must catch every Exception: syntactic obligation on the real template text."""
+    import os
+    import re
+    from pyvc.core import REPO
+    t0 = time.time()
+    path = os.path.join(REPO, "openapi_python_client", "templates", "property_templates", "union_property.py.jinja")
+    ob = Obligation(id=f"{prop}.C.templates.union-member-attempt-catches-everything", props=[prop, "C02"],
+                    unit="openapi_python_client/templates/property_templates/union_property.py.jinja: macro construct",
+                    where="openapi_python_client/templates/property_templates/union_property.py.jinja",
+                    backend="syntactic (template text)",
+                    formula="every `except` the union decoder template writes is bare or catches Exception / BaseException, and "
+                            "there is at least one: a value that is not of an earlier member's type reaches the later members")
+    try:
+        src = open(path, encoding="utf-8").read()
+        handlers = re.findall(r"^[ \t]*except\b([^:\n]*):", src, re.M)
+        narrow = [h.strip() for h in handlers if h.strip() not in ("", "Exception", "BaseException")
+                  and not re.fullmatch(r"(Exception|BaseException)\s+as\s+\w+", h.strip())]
+        if not handlers:
+            ob.status, ob.detail = REFUTED, "the union decoder template has no try/except around member attempts any more"
+        elif narrow:
+            ob.status, ob.detail = REFUTED, f"member attempts only catch {narrow}: any other exception of a member's decoder aborts the union"
+        else:
+            ob.status, ob.detail = PROVED, f"{len(handlers)} handler(s), all catch-all"
+    except OSError as e:
+        ob.status, ob.detail = UNDECIDED, f"template not readable: {e}"
+    ob.time_s = time.time() - t0
+    return rep.add(ob)
